@@ -57,6 +57,28 @@ def gen_factor(g, kind, R, D):
     raise ValueError(kind)
 
 
+def neg_weights(g, u, f):
+    """a rank-one factor exp(-g (v'x)^2 / 2 + ...) with NEGATIVE weight g is a legitimate conjugate factor as long as the
+    product with the measure keeps a positive definite precision: in a third of the pairings some weights become
+    -2^-k with 2^-k <= lambda_min(Lambda_u) / (2 v'v) (so that 1 + g v'Sigma v >= 1/2)"""
+    if f.get("kind") != "onerank" or g.randint(0, 2):
+        return f
+    import numpy as np
+    if "Lam" in u:
+        lam = min(float(np.linalg.eigvalsh(gtlib.fl(L)).min()) for L in u["Lam"])
+    else:
+        lam = min(1.0 / float(np.linalg.eigvalsh(gtlib.fl(S)).max()) for S in u["Sig"])
+    for j, v in enumerate(f["v"]):
+        vv = float(sum(x * x for x in v))
+        if vv == 0 or g.randint(0, 1):
+            continue
+        k = 0
+        while 2.0 ** (-k) > lam / (2 * vv):
+            k += 1
+        f["g"][j] = -Fr(1, 2 ** k)
+    return f
+
+
 def J(d):
     """desc -> JSON-able (Fractions to pairs)."""
     if isinstance(d, dict):
